@@ -12,7 +12,7 @@ EXPLANATION = (
     "Abstract interpretation with failures injected.  Walkers: every DagWalker subclass the package instantiates is "
     "interpreted on shared skeletons with a failure injected at every handler call in turn; after the failure "
     "another formula and then the same formula are walked on the same instance: results, handler calls and memo "
-    "must be those of a fresh walker (R1).  Manager: on the real, interpreted FormulaManager ~35 ill-sorted "
+    "must be those of a fresh walker (R1).  Manager: on the real, interpreted FormulaManager ~40 ill-sorted "
     "applications (every operator family; failures raised by the type checker as PysmtTypeError and as other "
     "exception types) are requested twice: each request raises, and the hash-consing table, the id counter, the "
     "symbol table and the constant caches are exactly what they were before (R2).  Parser: after each rejected "
